@@ -157,7 +157,6 @@ func (c *Collection) postNewEvent(e *event) {
 	feedEvent := e.asFeedEvent(c.GetCollectionID())
 
 	c.postEvent(feedEvent)
-	c.bucket.expManager.scheduleExpirationAtOrBefore(e.exp)
 
 	/*
 		// Tell collections of other buckets on the same db file to post the event too:
